@@ -257,7 +257,9 @@ def run_case(desc):
             if ok:
                 ok, why = False, 'nonnull_without_initial:'
     items = []
-    proj = projlab.Project()
+    # every third case: the observed database is `other`, next to a
+    # fully installed `default` (projlab decoy mode)
+    proj = projlab.Project(decoy=desc.get('i', 0) % 3 == 1)
     evo_helpers = ''
     if desc['i'] % 8 == 5:
         # instead of the perturbation: the complete, valid evolution is
@@ -375,6 +377,7 @@ def run_case(desc):
                     len(proj.version_rows()) != n_versions:
                 items.append(dict(ctx, type='BOOKKEEPING_CHANGED'))
     finally:
+        stats['decoy_runs'] = proj.decoy_runs
         proj.cleanup()
     return {'key': S.canon([h.specs, texts]), 'nontrivial': not ok,
             'items': items, 'stats': stats,
